@@ -319,6 +319,9 @@ def labels_of(case, out):
         return {'json': [json.loads('"%s"' % x) for x in re.findall(r'"target": "((?:[^"\\]|\\.)*)"', out)]}
     if case['out'] == 'policy':
         return {'text': re.findall(r'^Host:   (.*)$', out, re.M)}
+    # the verbose progress lines are printed by the worker threads as they go (write_now): print() writes the text and the newline separately, so two
+    # threads can put their texts on one line; a progress text that starts in the middle of a line is given its own line before the lines are read
+    out = re.sub(r'(?<=.)(Starting audit of |Running against: )', r'\n\1', out)
     lab = {'verbose': re.findall(r'^Starting audit of (.*)\.\.\.$', out, re.M)}
     lab['text'] = re.findall(r'^\(gen\) target: (.*)$', out, re.M)
     return lab
